@@ -76,6 +76,11 @@ def build_harness(race=False):
     with Lock("harness"):
         os.makedirs(BUILD, exist_ok=True)
         shutil.copy(os.path.join(REPO, "go.sum"), os.path.join(HARNESS_SRC, "go.sum"))
+        gm = os.path.join(HARNESS_SRC, "go.mod")
+        txt = open(gm).read()
+        want = re.sub(r"(replace github.com/frankkopp/FrankyGo => ).*", lambda m: m.group(1) + REPO, txt)
+        if want != txt:
+            open(gm, "w").write(want)
         out = HARNESS_RACE if race else HARNESS
         cmd = ["go", "build", "-tags", "verif"] + (["-race"] if race else []) + ["-o", out, "."]
         rc, so, se = run(cmd, cwd=HARNESS_SRC, env=GOENV, timeout=900)
